@@ -147,6 +147,28 @@ CHECKS = {
         "produced group must be bit-identical to the fresh result, other groups unchanged, counts consistent.",
         "Trusted: the fresh-dataset result (decided by C01-C14). Bounded to 6 calls per history.",
         "DESIGN.md section 3 C15"),
+    "C05": (
+        "PBT with points constructed relative to a generated grid (decidable / tolerant / just-outside classes), "
+        "oracle = float64 floor-binning on the grid rebuilt from the returned centres; schedule sub-check over "
+        "numba thread counts, row permutations and repetitions against the exact oracle",
+        "Generated point sets (N 0-3000, linear/log axes, explicit/automatic limits, NaN/inf, near-edge and "
+        "just-outside points, 0-3 integer-valued layers with sum/mean at layer or call level) are histogrammed "
+        "through the public API and the kernel; per-bin counts must lie between strict and loose expectations, "
+        "bins untouched by edge points must match exactly (counts, sums, means, mask), totals are conserved. "
+        "Large inputs (2e5-4e5 points, crowded bins) are run under 1-16 threads and must be exact every time.",
+        "Trusted: numpy floor-binning in float64. Thread interleavings are sampled, not enumerated: a race that "
+        "needs a specific interleaving could be missed (measured loss rates on the pinned tree were 1-40%).",
+        "DESIGN.md section 3 C05, 2.7"),
+    "C18": (
+        "PBT over normal vectors spanning 120 decades of length and 300 decades of component ratio + exhaustive "
+        "enumeration of axis strings + generated particle clouds; oracle = orthonormality/orientation predicates "
+        "and an independent numpy angular momentum",
+        "get_direction is called with generated normals (axis-aligned, z=0, x+y=0 exact and near, tiny and "
+        "denormal components, int and float data, units), all 54 axis strings, user bases from random rotations "
+        "with arbitrary lengths/units and 'top'/'side' clouds; (n,u,v) must be orthonormal to 1e-9, n parallel "
+        "to the request, right-handed when only the normal is given, aligned with / containing L for top/side.",
+        "Trusted: numpy linear algebra. Overall vector lengths bounded to 10^+-60 (squared length representable).",
+        "DESIGN.md section 3 C18"),
 }
 
 NOT_APPLICABLE = []
